@@ -152,5 +152,9 @@ package bridgesync
 //@   modifies heap
 //@   ensures[found-is-a-live-call-to-the-bridge] result1 == nil ==> result0 != nil && result0.Err == nil && result0.To == targetAddr
 //@   ensures[error-means-nothing] result1 != nil ==> result0 == nil
+// a call is put on the stack only as a child of a frame that did not revert, and only if it did not revert itself:
+// with the root checked when it is taken off, every frame the search ever looks at has only non-reverted ancestors
+// (the induction over the stack contents is this argument, not a machine-checked invariant)
+//@   assert call:Push:1 currentCall.Err == nil && c.Err == nil
 //@   loop 0 invariant callStack != nil && logger != nil
 //@   loop 1 invariant callStack != nil && logger != nil && 0 <= rangeindex + 1 && rangeindex + 1 <= len(currentCall.Calls)
